@@ -50,6 +50,8 @@ PLAN = {
     'search-quick': [('full', 2), ('core', 3), ('search', 4)],
     'search-thorough': [('full', 3), ('core', 4), ('search', 5)],
     'nav-quick': [('full', 2), ('core', 4), ('search', 3)],
+    'nav4-quick': [('full', 3), ('core', 4), ('search', 3)],
+    'nav4-thorough': [('full', 3), ('core', 5), ('search', 4)],
     'nav-thorough': [('full', 3), ('core', 5), ('search', 4)],
     'fault-quick': [('full', 2), ('core', 2)],
     'fault-thorough': [('full', 2), ('core', 3)],
